@@ -34,7 +34,10 @@ COMPONENTS["transparency"] = {
     "what": ("three real systems, each behind its own re-chunking proxy: remote Kill (poison and not) with watchers that have THE SAME PATH on A, on C and on B "
              "itself (every watcher exactly one OnKilled naming the target, the target exactly one OnKill naming the remote killer, reason and poison flag); "
              "Unwatch by one same-path watcher must not affect the others; remote Ping/Pong; remote Ask/Reply; PipeTo with a remote and a local forwarder for "
-             "success and failure results; a Tell after the kill no longer reaches the actor"),
+             "success and failure results; a Tell after the kill no longer reaches the actor; finally (harness/cmd/remoting/alias.go) Tell / Ask / Ping / Watch / Kill "
+             "through refs that carry an ALIAS address of the target system (its bind address behind the proxy, localhost:PORT for 127.0.0.1:PORT): same effect as "
+             "through the advertised address, the OnKilled names the advertised address, and the target system sends 0 frames to its own addresses "
+             "(monitors c15-alias-not-delivered, c15-alias-self-send)"),
 }
 
 _M5 = ("M5: TCP is a reliable FIFO byte stream that may split/coalesce arbitrarily and may be cut after any byte; conn.Write delivers all its bytes or a "
@@ -78,12 +81,20 @@ PROPERTIES = {
 
 PROPERTIES["C15"] = {
     "components": ["transparency"],
-    "coq_files": ["Properties/C15_remote.v"],
+    "coq_files": ["Properties/C15_remote.v", "Properties/C15.v"],
     "rule": ("remote Kill / Watch / Unwatch / Ping / PipeTo rounds between three real systems (12 quick / 120 thorough; poison and non-poison; same-path watchers on "
-             "different systems; pass, 1-byte, straddling, random chunking); "
-             "no model cases: implementation monitors only (the wire-level theorem is C11's, instantiated for envelopes)"),
+             "different systems; pass, 1-byte, straddling, random chunking), then alias-address rounds (1 quick / 6 thorough per alias string of the target system: "
+             "Tell, Ask, Ping, Watch, Kill through the alias ref; self-send count of the target system must stay 0); "
+             "no model cases: implementation monitors only (Properties/C15.v composes C12's envelope round trip with C11's framing theorem per operation; "
+             "Properties/C15_remote.v is the wire-level instance for raw envelopes)"),
     "modelled_not_verified": [
-        "payload codecs of OnKill / OnKilled / Watch (including the (address, path) encoding of their ActorRef fields) are assumed here: C12's round-trip theorems",
+        "Properties/C15.v: the payload codecs are C12's theorems (composed, not assumed); explicit hypotheses in the statements: M9 (user Codec round trip, inside valid_msg), "
+        "NewRef idempotence on the refs used (valid_aref: newref a p = MOk (a, p); differentially tested by the frame component each run), M7 (agent paths unique: the table "
+        "entry under the agent path is the Ask's future), the two size conditions fits / frame_ok (proved from 64 KiB string bounds for the flat built-in operations)",
+        "Properties/C15_remote.v (raw envelopes) assumes the payload codecs of OnKill / OnKilled / Watch: C12's round-trip theorems",
+        "the link to the local semantics is one step deep: dispatch / deliver of Actor/Core.v depend on the sender ref only through its path (C15_dispatch_sender_path_only); "
+        "a later findMailbox of the stored ref goes through the ref object's mailbox cache for a local ref and through the registry for a rebuilt one: they differ after "
+        "name reuse (C15_resolve_identity_witness; the witness state is given, not shown reachable); Core.v has no addresses",
         "what the target system does with a delivered system envelope (kill the subtree, notify watchers) is the actor runtime's business (C06), observed here by monitors only",
         _M5,
     ],
@@ -91,7 +102,11 @@ PROPERTIES["C15"] = {
 
 META = {
     "C15": {
-        "text": ("Remoting part of location transparency: system messages (Kill, Watch, OnKilled) travel in the same envelopes and frames as user messages; "
+        "text": ("Location transparency, kernel-checked per operation (Tell, Ask, Reply, Kill, Watch, Unwatch, Ping/Pong, OnKilled notice, PipeTo success and failure, scheduler "
+                 "firing): for every wire-valid instance, every chunking and every address string of the target system the caller's ref carries, the target system enqueues "
+                 "exactly one envelope, under the target's path, equal to the one a call on that system itself enqueues (system flag, message, sender address/path, receiver "
+                 "path); derived by composing C12's envelope/message round trips with C11's framing theorem; one-step link to Actor/Core.v (dispatch depends on the sender "
+                 "ref only through its path). Wire part: system messages (Kill, Watch, OnKilled) travel in the same envelopes and frames as user messages; "
                  "kernel-checked: any sequence of envelopes (system flag, message name, payload, four reference strings) is delivered exactly once, in order, "
                  "every field intact, for every chunking, and the receiver rebuilds exactly the written sender/receiver references. Tied to the code by remote "
                  "Kill / Watch rounds on two real systems."),
